@@ -74,6 +74,7 @@ def configure(cfg, tier):
     cfg.branch_timeout_ms = 20000
     cfg.query_timeout_ms = 60000 if tier == "quick" else 240000
     cfg.max_paths = 50
+    cfg.bb_max_boxes = 20000 if tier == "quick" else 400000
 
 
 def _dot(a, b):
